@@ -3,270 +3,15 @@
 package c02
 
 import (
-	"context"
 	"fmt"
-	"math"
-	"runtime/debug"
-	"sort"
-	"strings"
 	"testing"
-	"time"
 
-	"github.com/tikv/client-go/v2/config"
-	"github.com/tikv/client-go/v2/kv"
-	"github.com/tikv/client-go/v2/tikv"
 	"github.com/tikv/client-go/v2/verif/ev"
 	_ "github.com/tikv/client-go/v2/verif/quiet"
+	"github.com/tikv/client-go/v2/verif/scen"
 	"github.com/tikv/client-go/v2/verif/sim"
 	"pgregory.net/rapid"
 )
-
-var keyPool = []string{"a", "b", "c", "d", "e"}
-
-// program is one crash scenario without the crash point.
-type program struct {
-	backend  sim.Backend
-	nStores  int
-	batch1   bool
-	conc1    bool
-	keys     []string
-	splits   []string
-	initial  []*sim.Step // txn 100 (client 1): initial data
-	victim   []*sim.Step // txn 0 (client 0): begin ... (commit is appended by the runner)
-	conflict []*sim.Step // txn 101 (client 1): commits after the victim began
-	recovery []*sim.Step // txns 200.. (client 1) after the locks expired
-}
-
-func (p *program) String() string {
-	str := func(ss []*sim.Step) string {
-		var o []string
-		for _, s := range ss {
-			o = append(o, s.String())
-		}
-		return strings.Join(o, " ; ")
-	}
-	return fmt.Sprintf("backend=%v stores=%d batch1=%v conc1=%v splits=%q | init: %s | victim: %s | conflict: %s | recovery: %s",
-		p.backend, p.nStores, p.batch1, p.conc1, p.splits, str(p.initial), str(p.victim), str(p.conflict), str(p.recovery))
-}
-
-func genProgram(t *rapid.T, backend sim.Backend) *program {
-	p := &program{backend: backend, nStores: 1}
-	if backend == sim.Mock {
-		p.nStores = rapid.SampledFrom([]int{1, 3}).Draw(t, "stores")
-	}
-	p.batch1 = rapid.Bool().Draw(t, "batch1")
-	p.conc1 = rapid.IntRange(0, 3).Draw(t, "conc1") != 0
-	nKeys := rapid.IntRange(1, 4).Draw(t, "nkeys")
-	p.keys = append([]string{}, rapid.Permutation(keyPool).Draw(t, "keys")[:nKeys]...)
-	sort.Strings(p.keys)
-	for i := rapid.IntRange(0, 2).Draw(t, "nsplits"); i > 0; i-- {
-		k := rapid.SampledFrom(keyPool).Draw(t, "splitkey")
-		if rapid.Bool().Draw(t, "offkey") {
-			k += "0"
-		}
-		p.splits = append(p.splits, k)
-	}
-	key := func(name string) string { return rapid.SampledFrom(p.keys).Draw(t, name) }
-	// initial data
-	p.initial = []*sim.Step{{Txn: 100, Op: "begin", Client: 1}}
-	for _, k := range p.keys {
-		if rapid.Bool().Draw(t, "init") {
-			p.initial = append(p.initial, &sim.Step{Txn: 100, Op: "set", Keys: []string{k}, Val: "i." + k})
-		}
-	}
-	p.initial = append(p.initial, &sim.Step{Txn: 100, Op: "commit"})
-	// victim
-	pess := rapid.Bool().Draw(t, "pessimistic")
-	b := &sim.Step{Txn: 0, Op: "begin", Client: 0, Pessimistic: pess}
-	if backend == sim.Uni {
-		switch rapid.IntRange(0, 3).Draw(t, "mode") {
-		case 1:
-			b.Async = true
-		case 2:
-			b.OnePC = true
-		case 3:
-			b.Async, b.OnePC = true, true
-		}
-	}
-	p.victim = []*sim.Step{b}
-	nOps := rapid.IntRange(1, 5).Draw(t, "nops")
-	for j := 0; j < nOps; j++ {
-		ops := []string{"set", "set", "set", "delete", "insert", "get"}
-		if pess {
-			ops = append(ops, "lock")
-		}
-		s := &sim.Step{Txn: 0, Op: rapid.SampledFrom(ops).Draw(t, "op"), Keys: []string{key("k")}}
-		switch s.Op {
-		case "set", "insert":
-			s.Val = fmt.Sprintf("v.%d", j)
-			s.LockFirst = pess && s.Op == "set"
-		case "delete":
-			s.LockFirst = pess
-		}
-		p.victim = append(p.victim, s)
-	}
-	// a conflicting commit after the victim began (makes Commit fail definitely for optimistic victims,
-	// or pessimistic statements fail)
-	if rapid.IntRange(0, 3).Draw(t, "conflict") == 0 {
-		p.conflict = []*sim.Step{{Txn: 101, Op: "begin", Client: 1}, {Txn: 101, Op: "set", Keys: []string{key("ck")}, Val: "c"}, {Txn: 101, Op: "commit"}}
-	}
-	// recovery by the other client
-	nRec := rapid.IntRange(1, 4).Draw(t, "nrec")
-	for j := 0; j < nRec; j++ {
-		id := 200 + j
-		kinds := []string{"get", "batchget", "iter", "write", "lockwrite", "batchget"}
-		if backend == sim.Mock {
-			kinds = append(kinds, "iterrev")
-		}
-		p.recovery = append(p.recovery, &sim.Step{Txn: id, Op: "begin", Client: 1, Pessimistic: false})
-		switch kind := rapid.SampledFrom(kinds).Draw(t, "rec"); kind {
-		case "get":
-			p.recovery = append(p.recovery, &sim.Step{Txn: id, Op: "get", Keys: []string{key("rk")}})
-		case "batchget":
-			p.recovery = append(p.recovery, &sim.Step{Txn: id, Op: "batchget", Keys: p.keys})
-		case "iter":
-			p.recovery = append(p.recovery, &sim.Step{Txn: id, Op: "iter", Lo: "a", Hi: ""})
-		case "iterrev":
-			p.recovery = append(p.recovery, &sim.Step{Txn: id, Op: "iterrev", Lo: "a", Hi: "~"})
-		case "write":
-			p.recovery = append(p.recovery, &sim.Step{Txn: id, Op: "set", Keys: []string{key("rk")}, Val: fmt.Sprintf("r.%d", j)})
-		case "lockwrite":
-			p.recovery[len(p.recovery)-1].Pessimistic = true
-			p.recovery = append(p.recovery, &sim.Step{Txn: id, Op: "set", Keys: []string{key("rk")}, Val: fmt.Sprintf("r.%d", j), LockFirst: true})
-		}
-		p.recovery = append(p.recovery, &sim.Step{Txn: id, Op: "commit"})
-	}
-	return p
-}
-
-type outcome struct {
-	viol      []sim.Violation
-	infra     string
-	hung      string
-	rpcs      int // traced RPCs of the victim's Commit (sync + background)
-	leftLocks int // locks in the store when the victim was dead / done, before recovery
-	told      string
-	victim    *sim.TxnRec
-	fate      string
-	log       []string
-	truth     *sim.Truth
-	trace     string
-	entries   []*sim.Entry
-}
-
-// run executes the program with the victim crashing at its crashIdx-th commit RPC (mode kill = the request
-// is never delivered, killAfter = delivered but the answer is lost with the process); crashIdx < 0 = no crash.
-func run(p *program, crashIdx int, mode string) (res outcome) {
-	oldBatch := kv.TxnCommitBatchSize.Load()
-	if p.batch1 {
-		kv.TxnCommitBatchSize.Store(1)
-	}
-	defer kv.TxnCommitBatchSize.Store(oldBatch)
-	cfg := *config.GetGlobalConfig()
-	orig := cfg
-	if p.conc1 {
-		cfg.CommitterConcurrency = 1
-	}
-	config.StoreGlobalConfig(&cfg)
-	defer config.StoreGlobalConfig(&orig)
-
-	cl, err := sim.NewCluster(p.backend, p.nStores, 3)
-	if err != nil {
-		res.infra = err.Error()
-		return
-	}
-	defer cl.Close()
-	for _, k := range p.splits {
-		cl.SplitAt(k)
-	}
-	var failMsg string
-	w := sim.NewWorld(cl, p.keys, func(f string, a ...any) {
-		if failMsg == "" {
-			failMsg = fmt.Sprintf(f, a...)
-		}
-	})
-	done := make(chan struct{})
-	go func() {
-		defer close(done)
-		defer func() {
-			if r := recover(); r != nil && failMsg == "" {
-				failMsg = fmt.Sprintf("panic during step %q: %v\n%s", w.Log[len(w.Log)-1], r, debug.Stack())
-			}
-		}()
-		exec := func(ss []*sim.Step) {
-			for _, s := range ss {
-				if failMsg == "" {
-					w.Exec(s)
-				}
-			}
-		}
-		exec(p.initial)
-		exec(p.victim[:1])
-		exec(p.conflict)
-		exec(p.victim[1:])
-		commit := &sim.Step{Txn: 0, Op: "commit", DrainArmed: true}
-		if crashIdx >= 0 {
-			commit.Faults = []sim.FaultSpec{{Type: "", Index: crashIdx, Action: mode}}
-		}
-		exec([]*sim.Step{commit})
-		res.rpcs = w.LastCallRPCs
-		if crashIdx >= 0 && !cl.Clients[0].Net.Dead() {
-			// the crash point lies beyond this run's request count (concurrent batches vary): die now
-			cl.Clients[0].Net.Kill()
-			w.Txns[0].Ended = "killed"
-		}
-		if locks, err := (tikv.StoreProbe{KVStore: cl.Clients[2].Store}).ScanLocks(context.Background(), nil, []byte{0xff, 0xff}, math.MaxUint64); err == nil {
-			res.leftLocks = len(locks)
-		}
-		cl.Expire()
-		exec(p.recovery)
-		if failMsg == "" {
-			res.truth, err = w.Finish()
-		}
-	}()
-	select {
-	case <-done:
-	case <-time.After(60 * time.Second):
-		es := cl.Trace.Since(0)
-		if len(es) > 40 {
-			es = es[len(es)-40:]
-		}
-		var tail []string
-		for _, e := range es {
-			tail = append(tail, sim.DescribeEntry(e))
-		}
-		res.hung = fmt.Sprintf("case did not finish within 60 s; log:\n    %s\n  last RPCs:\n    %s", strings.Join(w.Log, "\n    "), strings.Join(tail, "\n    "))
-		return
-	}
-	res.log = w.Log
-	res.trace = cl.Trace.Describe()
-	res.entries = cl.Trace.Since(0)
-	res.victim = w.Txns[0]
-	if failMsg != "" {
-		res.viol = append(res.viol, sim.Violation{Rule: "actor", Msg: failMsg})
-		return
-	}
-	if err != nil {
-		res.infra = "recovery: " + err.Error()
-		return
-	}
-	res.viol = sim.CheckHistory(w.Recs(), res.truth, p.keys, nil, cl.Trace.Since(0)...)
-	v := res.victim
-	o, _ := sim.OutcomeOf(v, res.truth)
-	res.fate = "rolled-back"
-	if o.Committed {
-		res.fate = "committed"
-	}
-	res.told = "nothing"
-	if v.Told {
-		res.told = v.CommitClass
-	}
-	// every recovery read must have succeeded: the locks are expired, so no reader may be blocked forever
-	if w.ReadErrs > 0 {
-		res.viol = append(res.viol, sim.Violation{Rule: "recovery-read", Msg: fmt.Sprintf("%d reads failed although every lock of the dead client had expired", w.ReadErrs)})
-	}
-	return
-}
 
 const rule = "generated scenario = initial data, one victim transaction (optimistic | pessimistic with locked statements; on unistore also async-commit / 1PC) of 1-5 writes (set, delete, insert, lock-only) over 1-4 keys in 1-3 regions (commit batch size 1 or default, committer concurrency 1 or default, 1 or 3 stores), optionally a conflicting commit that makes the victim's Commit fail, and 1-4 recovery transactions of another client (get, batch-get, scan, reverse scan, optimistic write, pessimistic locked write); a fault-free run counts the N requests Commit issues (synchronous and background), then the scenario is re-run once per crash point i<N and mode (request i never delivered | delivered but the client dies before the answer), the victim client being dead (all its later requests fail) from that instant; then all locks expire, the recovery transactions run, an auditor resolves what is left and the raw MVCC records are read; oracle: single outcome and one commit ts over all written keys, outcome = committed if Commit had returned nil while alive, rolled back if it had returned a definite error, every recovery read equals the final truth at its snapshot (no partial view), no read blocked, no lock left, plus the C01 history rules; non-trivial = the dead client left at least one lock behind; distinct = scenario text + crash point"
 
@@ -277,38 +22,38 @@ func crashPoints(t *testing.T, backend sim.Backend) {
 		maxPoints = 1000
 	}
 	rapid.Check(t, func(t *rapid.T) {
-		p := genProgram(t, backend)
-		base := run(p, -1, "")
-		if base.hung != "" {
-			t.Fatalf("VERIF-INFRA: %s\n  scenario: %s", base.hung, p)
-		}
-		if base.infra != "" {
-			t.Fatalf("VERIF-INFRA: %s | %s", base.infra, p)
-		}
-		report := func(o outcome, idx int, mode string) {
-			if o.hung != "" {
-				t.Fatalf("VERIF-INFRA: %s\n  crash=%s@%d\n  scenario: %s", o.hung, mode, idx, p)
+		p := scen.Gen(t, backend)
+		report := func(o scen.Outcome, idx int, mode string, n int) {
+			if o.Hung != "" {
+				t.Fatalf("VERIF-INFRA: %s\n  crash=%s@%d\n  scenario: %s", o.Hung, mode, idx, p)
 			}
-			if o.infra != "" {
-				t.Fatalf("VERIF-INFRA: %s | crash=%s@%d | %s", o.infra, mode, idx, p)
+			if o.Infra != "" {
+				t.Fatalf("VERIF-INFRA: %s | crash=%s@%d | %s", o.Infra, mode, idx, p)
 			}
-			if len(o.viol) > 0 {
-				var vs []string
-				for _, v := range o.viol {
-					vs = append(vs, v.String())
+			// every recovery read must have succeeded: the locks are expired, so no reader may be blocked forever
+			if o.ReadErrs > 0 {
+				o.Viol = append(o.Viol, sim.Violation{Rule: "recovery-read", Msg: fmt.Sprintf("%d reads failed although every lock of the dead client had expired", o.ReadErrs)})
+			}
+			var real []sim.Violation
+			for _, v := range o.Viol {
+				if v.Known != "" && rec.Excluding(v.Known) {
+					continue
 				}
-				t.Fatalf("crash recovery violates all-or-nothing / ack consistency:\n  %s\n  crash point: %s at commit RPC #%d of %d\n  scenario: %s\n  told=%s fate=%s\n  log:\n    %s\n  truth: %s\n  rpc trace:\n    %s",
-					strings.Join(vs, "\n  "), mode, idx, base.rpcs, p, o.told, o.fate, strings.Join(o.log, "\n    "), o.truth.Describe(p.keys), strings.ReplaceAll(o.trace, "\n", "\n    "))
+				real = append(real, v)
+			}
+			if o.Viol = real; len(real) > 0 {
+				t.Fatalf("crash recovery violates all-or-nothing / ack consistency:\n  crash point: %s at commit RPC #%d of %d\n  %s", mode, idx, n, o.Describe(p))
 			}
 		}
-		report(base, -1, "none")
-		if base.victim == nil {
+		base := scen.Run(p, scen.Opts{})
+		report(base, -1, "none", base.RPCs)
+		if base.Victim == nil {
 			return
 		}
-		if base.victim.CommitClass == "undetermined" {
+		if base.Victim.CommitClass == "undetermined" {
 			t.Fatalf("fault-free Commit returned undetermined: %s", p)
 		}
-		n := base.rpcs
+		n := base.RPCs
 		var points []int
 		for i := 0; i < n; i++ {
 			points = append(points, i)
@@ -321,25 +66,30 @@ func crashPoints(t *testing.T, backend sim.Backend) {
 			}
 			points = sub
 		}
-		rec.Case(fmt.Sprintf("%s|none", p), false, []string{"crash=none", "base-commit=" + base.victim.CommitClass}, nil)
+		rec.Case(fmt.Sprintf("%s|none", p), false, []string{"crash=none", "base-commit=" + base.Victim.CommitClass}, nil)
 		for _, i := range points {
 			for _, mode := range []string{"kill", "killAfter"} {
-				o := run(p, i, mode)
-				report(o, i, mode)
-				classes := []string{"crash=" + mode, "told=" + o.told, "fate=" + o.fate, fmt.Sprintf("left-locks=%v", o.leftLocks > 0), "backend=" + backend.String()}
-				if o.victim != nil {
-					classes = append(classes, "path="+sim.ModeOf(o.entries, o.victim.StartTS))
-				}
-				if o.victim != nil && o.victim.Pessimistic {
-					classes = append(classes, "victim=pessimistic")
+				o := scen.Run(p, scen.Opts{Faults: []sim.FaultSpec{{Type: "", Index: i, Action: mode}}, KillIfAlive: true})
+				report(o, i, mode, n)
+				classes := []string{"crash=" + mode, "told=" + o.Told, "fate=" + o.Fate, fmt.Sprintf("left-locks=%v", o.LeftLocks > 0), "backend=" + backend.String()}
+				if i >= base.SyncRPCs {
+					classes = append(classes, "phase=background")
 				} else {
-					classes = append(classes, "victim=optimistic")
+					classes = append(classes, "phase=synchronous")
+				}
+				if o.Victim != nil {
+					classes = append(classes, "path="+sim.ModeOf(o.Entries, o.Victim.StartTS))
+					if o.Victim.Pessimistic {
+						classes = append(classes, "victim=pessimistic")
+					} else {
+						classes = append(classes, "victim=optimistic")
+					}
 				}
 				var sample map[string]any
-				if o.leftLocks > 0 {
-					sample = map[string]any{"scenario": p.String(), "crash": fmt.Sprintf("%s@%d/%d", mode, i, n), "told": o.told, "fate": o.fate, "locks_left_by_dead_client": o.leftLocks}
+				if o.LeftLocks > 0 {
+					sample = map[string]any{"scenario": p.String(), "crash": fmt.Sprintf("%s@%d/%d", mode, i, n), "told": o.Told, "fate": o.Fate, "locks_left_by_dead_client": o.LeftLocks}
 				}
-				rec.Case(fmt.Sprintf("%s|%s@%d", p, mode, i), o.leftLocks > 0, classes, sample)
+				rec.Case(fmt.Sprintf("%s|%s@%d", p, mode, i), o.LeftLocks > 0, classes, sample)
 			}
 		}
 	})
